@@ -78,6 +78,10 @@ claim('C05', 'CrossHair symbolic execution of the real Earley forest priority co
       'solver-closed enumeration of priority vectors x priority modes through Lark.__init__, sampled hash seeds for determinism',
       'Optimality is decided for all signed priorities on each (corpus grammar, ambiguous input) pair; inputs and grammars are bounded; hash seeds are sampled (declared outside the quantifier).',
       'Trusted: refsem derivation enumeration; priorities are written into Rule.options after construction in the symbolic harness.', '3/C05')
+claim('C19', 'CrossHair symbolic execution over lazily realised lexeme sequences (LALR viability filter prunes rejected prefixes); parse -> reconstruct -> parse on grammars of the supported class; '
+      'the Reconstructor runs traced at the small bound and realised at the larger one',
+      'Bounded by the number of lexemes per grammar (3 grammars: expressions with ?-rules and aliases, keyword/inlined/! rules, JSON-like with optional lists).',
+      'Relational (round trip); grammars hand-checked to be in the supported class.', '3/C19')
 claim('C20', 'CrossHair symbolic execution of the real SPPF construction and every forest visitor/transformer class, vs. the set of unshaped derivation trees; walks on cyclic grammars '
       'under a watchdog with on_cycle accounting',
       'Bounded as C04; completeness for BNF grammars (helper-rule names of EBNF expansions are not part of the documented forest).',
